@@ -235,9 +235,19 @@ func C18() int {
 		if has(bEnvPair) {
 			env = append(env, "ATLAS_PUBLIC_KEY="+atlasPub, "ATLAS_PRIVATE_KEY="+atlasPriv)
 		}
+		if !has(bEnvPair) && m%2 == 1 {
+			// exported but empty: that is no key pair
+			env = append(env, "ATLAS_PUBLIC_KEY=", "ATLAS_PRIVATE_KEY=")
+			c.Count("runs_with_empty_key_variables", 1)
+		}
 		run := sut.Run{Args: args, Dir: dir, Env: env, Timeout: 2 * time.Minute}
 		if has(bStdin) {
 			run.Stdin = input
+			if m%8 == 3 {
+				// a slow producer: the pipe is there from the start, its first byte arrives after 400 ms
+				run.StdinDelay = 400 * time.Millisecond
+				c.Count("runs_with_a_slow_stdin_producer", 1)
+			}
 		}
 		before := snapDir(dir)
 		nreq0, ncon0 := len(srv.Log()), len(srv.Connects())
